@@ -209,3 +209,42 @@ Example C06_block_overlap_nonvacuous :
   block_overlap_side_ok p 14%nat = true /\ exists p', block_overlap p 14%nat = Some p' /\ prog_eqb p p' = false.
 Proof. split; [vm_compute; reflexivity|eexists; split; vm_compute; reflexivity]. Qed.
 Print Assumptions C06_block_overlap_nonvacuous.
+
+(* ---- C06_loop_overlap_inside: congruence + induction on the iteration index + chain lemma, assembled ----------------
+   Original body:  INS ; setup a (from the loop-carried state) fs ; REST        (INS = the arith chain in front of the setup)
+   Rewritten body: INS ; REST' ; next_i = i + step ; EPI   with EPI = clone_scoped (iv, iter_args) |-> (next_i, yields)
+   exactly as Model/C06Overlap.loop_overlap_for builds it (REST' = REST with the erased state replaced; it executes
+   like REST).  [Inv k] = the machines are related (Rel: same events so far, every launch observed the same registers,
+   all registers equal except the moved setup's fields) and the rewritten run already holds, in those fields, what
+   the original setup of iteration k will write.  One iteration takes Inv k to Inv (k+1), hence for EVERY trip count
+   n, every lb (l), every step (s), every oracle the n iterations of the two loops are related: every launch inside
+   the rewritten loop observes the same registers.  The prologue establishes Inv 0 by the same chain lemma
+   (C06_clone_chain_correct with news = lb, iter operands).
+   PARTIAL with respect to the rule's full domain: the statements in front of the setup must be exactly its arith
+   chain, REST' must execute like REST (true when the erased state only occurs at state positions of flat
+   statements), iter_args distinct, the ids read by the chain are integer values below the fresh ids. *)
+From Snax Require Import Model.AccWeave Proofs.C06LoopInsideProofs.
+
+Theorem C06_loop_overlap_inside :
+  forall orc F a iv sp bargs ins o s_in fs rest rest' ys ys' next_i epi st_epi nfe,
+  all_spure ins = true ->
+  clone_scoped (iv :: bargs) (next_i :: ys) (S next_i) ins a s_in fs = (epi, st_epi, nfe) ->
+  (forall m, exec_block orc rest' m = exec_block orc rest m) ->
+  block_reads_off F rest ->
+  (forall v, In v (ops_of ins ++ map snd fs) -> off F v) ->
+  (forall v, In v (ops_of ins ++ map snd fs) -> (v < next_i)%nat) ->
+  (forall v, In v ys -> (v < next_i)%nat) ->
+  (forall x, (next_i <= x < nfe)%nat -> In x F) ->
+  off F iv /\ ~ In iv (block_binds (ins ++ rest)) /\ ~ In iv bargs ->
+  off F sp /\ ~ In sp (block_binds (ins ++ rest)) /\ ~ In sp bargs /\ sp <> iv ->
+  List.length ys = List.length bargs -> NoDup bargs ->
+  Forall (fun t => (fst (fst t) = snd t /\ off F (snd t)) \/ In (snd (fst t)) F) (combine (combine ys bargs) ys') ->
+  List.length ys' = List.length ys ->
+  (forall j b y, nth_error bargs j = Some b -> nth_error ys j = Some y -> In b (ops_of ins ++ map snd fs) -> off F y) ->
+  forall (l s : Z) n M1 M2,
+  Inv orc F a iv sp ins o s_in fs l s 0%nat M1 M2 ->
+  Inv orc F a iv sp ins o s_in fs l s n
+      (iter_n n (for_step (exec_block orc (body a ins o s_in fs rest)) iv bargs ys l s) M1)
+      (iter_n n (for_step (exec_block orc (body' iv sp ins rest' next_i epi)) iv bargs ys' l s) M2).
+Proof. intros. eapply loop_inside; eassumption. Qed.
+Print Assumptions C06_loop_overlap_inside.
